@@ -365,7 +365,7 @@ def run_check(prop, tier, seed, repo, stages, level, rule, assumptions,
         k = v["key"]
         hit = None
         for (pid, kk, what) in known:
-            if pid == prop and (kk == k or ("*" in kk and fnmatch.fnmatchcase(k, kk.replace("[", "[[]"))):
+            if pid == prop and (kk == k or ("*" in kk and fnmatch.fnmatchcase(k, kk.replace("[", "[[]")))):
                 hit = what
                 break
         if hit is not None:
